@@ -53,12 +53,15 @@ DocsDef == [
     <<"hooks">>, <<"hooks", "0">>, <<"hooks", "0", "events">>, <<"version">>, <<"namespace">> >>
 ]
 
-AlphabetsDef == [manifest |-> 16, strvals |-> 18, ignore |-> 16, recursion |-> 8]
+AlphabetsDef == [manifest |-> 16, strvals |-> 18, ignore |-> 16, recursion |-> 8, layout |-> 7, crds |-> 5]
 
 \* include -> tpl -> include cycles are bounded by the engine's per-name counter (1000), but every level of a cycle through
 \* tpl clones the template set: a cycle of two templates already needs about 2 GB and 4 s on the unchanged code, so the
 \* call graphs of this family stay at two named templates
-TokCapDef == [manifest |-> 99, strvals |-> 99, ignore |-> 99, recursion |-> 2]
+\* layout: a text is a set of switches on which files a chart and its vendored subchart have (Chart.yaml absent,
+\* legacy requirements.yaml / requirements.lock present, subchart vendored as an archive); crds: the documents of
+\* one file under crds/, rendered by `helm template` with every combination of --include-crds and --show-only
+TokCapDef == [manifest |-> 99, strvals |-> 99, ignore |-> 99, recursion |-> 2, layout |-> 3, crds |-> 3]
 
 DamagesDef == <<"intact", "notbase64", "badgzip", "truncated", "notjson", "jsonlist", "wrongtype", "jsonnull",
                 "emptyobject", "nullinfo", "nullchart">>
